@@ -1402,11 +1402,17 @@ func init() {
 			} else {
 				c15BudgetEnd = time.Now().Add(6 * time.Minute)
 			}
+			var cases []c15Case
 			if !race {
+				// corpus first: its leak cases alone (nothing else may be alive in this process), the
+				// others at the head of the parallel batch
 				for _, k := range c15LoadCorpus(c) {
-					c15Check(c, k)
+					if k.Kind == "leak" {
+						c15Check(c, k)
+					} else {
+						cases = append(cases, k)
+					}
 				}
-				// leak cases run alone, before anything else is alive in this process
 				bgClose.Wait(30 * time.Second)
 				nl := c.N(4, 16)
 				for i := 0; i < nl; i++ {
@@ -1417,7 +1423,7 @@ func init() {
 					c15Check(c, k)
 				}
 			}
-			var cases []c15Case
+			ncorpus := len(cases)
 			nd, nm, nst, ncl := c.N(24, 240), c.N(20, 200), c.N(6, 48), c.N(6, 40)
 			if race {
 				nd, nm, nst, ncl = 4, 10, 2, 4
@@ -1443,9 +1449,9 @@ func init() {
 					cases = append(cases, k)
 				}
 			}
-			c.Sample(cases[0])
-			c.Sample(cases[nd])
-			c.Sample(cases[nd+nm])
+			c.Sample(cases[ncorpus])
+			c.Sample(cases[ncorpus+nd])
+			c.Sample(cases[ncorpus+nd+nm])
 			workers := 8
 			if race {
 				workers = 4
